@@ -112,12 +112,26 @@ def parse_header(path):
     return res
 
 
+def c_arities():
+    """name -> number of parameters, for every function / function-like macro a_* declared in the headers"""
+    ar = {}
+    for h in glob.glob(os.path.join(vlib.REPO, "include", "a", "*.h")):
+        t = open(h, errors="replace").read()
+        t = re.sub(r"/\*.*?\*/", " ", t, flags=re.S)
+        for m in re.finditer(r"\b(?:A_EXTERN|A_INTERN)\b[^;{(]*?\b(a_\w+)\s*\(([^)]*)\)", t):
+            ps = m.group(2).strip()
+            ar.setdefault(m.group(1), 0 if ps in ("", "void") else len(split_top(ps)))
+        for m in re.finditer(r"#define\s+(a_\w+)\(([^)]*)\)", t):
+            ar.setdefault(m.group(1), len([x for x in m.group(2).split(",") if x.strip()]))
+    return ar
+
+
 def arg_for(ptype, k, struct):
     t = ptype.replace("const", "").replace(" ", "")
     if t == "a_real":
         return "(a_real)%s" % ((1.25 + 0.75 * k) * (-1 if k % 2 else 1))
     if t in ("unsignedint", "a_uint", "a_size", "int", "a_u32", "unsigned", "a_int"):
-        return "(%s)%d" % (ptype.replace("const", "").strip(), 2 + k % 3)
+        return "(%s)%d" % (ptype.replace("const", "").strip(), 2 + k)        # pairwise distinct, small enough to index the arrays
     if t == "a_real*":
         return ("RA[%d]" if "const" in ptype else "WA[%d]") % (k % 2)
     if t == "void*":
@@ -132,6 +146,7 @@ def arg_for(ptype, k, struct):
 
 
 def generate(structs, parsed, out_cpp):
+    arity = c_arities()
     L = ['#include <cstdio>', '#include <cstring>', '#include <vector>', '#include "a/mf.h"', '#include "a/pid_fuzzy.h"']
     for h in sorted(set(h for s, (h, _) in parsed.items() if s in structs)):
         L.append('#include "a/%s"' % h)
@@ -216,6 +231,11 @@ template <class T> static void snapshot(char const *side, T const &x, void const
                 retexpr = ("&R", "sizeof(R)") if "R =" in cs else ("0", "0")
                 callee = "(inline body)"
             elif m["callee"]:
+                # the C function a member stands for is named after it (a_<structure>_<member>, call operator = iter); the call
+                # written in the member's body is only trusted when no function of that name and arity exists
+                conv = "a_%s_%s" % (s, "iter" if m["name"] == "operator()" else m["name"])
+                if arity.get(conv) == len(args) + 1:
+                    m = dict(m, callee=conv)
                 call_c = "%s(&X%s)" % (m["callee"], "".join(", " + a for a in args))
                 call_m = ("X(%s)" % ", ".join(margs)) if m["name"] == "operator()" else "X.%s(%s)" % (m["name"], ", ".join(margs))
                 if nonvoid:
